@@ -1,7 +1,7 @@
 \* intended switches; all families incl. every grammatical type prefix; section interleavings up to 4 sections
 CONSTANTS
   Switches <- Intended
-  Families = {"clause", "prefixes", "sections", "struct", "structwide", "dup"}
+  Families = {"clause", "prefixes", "sections", "struct", "structwide", "dup", "comments"}
   MaxSections = 4
 INIT Init
 NEXT Next
